@@ -234,6 +234,7 @@ polyseed_status polyseed_phrase_decode(const polyseed_phrase phrase,
         if (have_lang) {
             /* The phrase can decode in multiple languages.
             Use polyseed_phrase_decode_explicit. */
+            MEMZERO_LOC(idx);
             return POLYSEED_ERR_MULT_LANG;
         }
         have_lang = true;
@@ -244,6 +245,7 @@ polyseed_status polyseed_phrase_decode(const polyseed_phrase phrase,
             *lang_out = lang;
         }
     }
+    MEMZERO_LOC(idx);
     return have_lang ? POLYSEED_OK : POLYSEED_ERR_LANG;
 }
 
